@@ -210,6 +210,9 @@ def run_case(case):
   wp.launch(mjw_forward._map_m2d, dim=(nworld, m.nD), inputs=[m.mapM2D, qH], outputs=[qLU])
   mjw_derivative.deriv_rne_vel(m, d, qLU, flg_subtract=False)
   qLU = mw.npy(qLU).astype(np.float64)
+  qRNE = wp.zeros((nworld, m.nD), dtype=float)  # the RNE term alone (used to characterise the mirrored-smooth-part mechanism)
+  mjw_derivative.deriv_rne_vel(m, d, qRNE, flg_subtract=False)
+  qRNE = mw.npy(qRNE).astype(np.float64)
   Di, Dj = mw.npy(m.qD_fullm_i), mw.npy(m.qD_fullm_j)
   # (iii) one step with each integrator
   qvel_next = {}
@@ -230,36 +233,38 @@ def run_case(case):
         if np.abs(mjm.geom_pos[g] - mjm.body_ipos[bdy]).max() > 1e-6:
           offset_ellipsoid = True
   has_ellipsoid = has_fluid and bool(np.any(mjm.geom_fluid[:, 0] > 0))
-  # One mechanism signature per judged group, by precedence (a model in class A hides other errors in the same group,
-  # the share of such models is reported in coverage):
-  #  A fluid:ellipsoid-geom-offset-from-com            root cause in passive.py (force applied at the COM, arm missing)
-  #  B qDeriv:muscle-gain-velocity-term                entries touched by a muscle-gain actuator
-  #  C qDeriv:implicit:fluid-derivative-mirrored...    upper triangle of the implicit matrix in fluid models
-  #  D qDeriv:implicitfast:ellipsoid-fluid-derivative-symmetrized
-  SIG_A = "fluid:ellipsoid-geom-offset-from-com"
+  # One mechanism signature per judged group:
+  #  B qDeriv:muscle-gain-velocity-term                entries touched by a muscle-gain actuator (and the step of such models)
+  #  C qDeriv:implicit:fluid-derivative-mirrored...    upper triangle of the implicit matrix in fluid models (and their implicit step)
+  #  D qDeriv:implicitfast:ellipsoid-fluid-derivative-symmetrized   (and the implicitfast step of ellipsoid-fluid models)
+  # (the former class "ellipsoid-model geom offset from the body COM" was a defect of passive.py, repaired in 2edca26;
+  #  if it returns, the affected entries fire under the plain qDeriv:* signatures)
   SIG_B = "qDeriv:muscle-gain-velocity-term"
   SIG_C = "qDeriv:implicit:fluid-derivative-mirrored-into-upper-triangle"
   SIG_D = "qDeriv:implicitfast:ellipsoid-fluid-derivative-symmetrized"
-  fast_sig = SIG_D if has_ellipsoid else "qDeriv:implicitfast"
   muscle_ids = [i for i in range(mjm.nu) if int(mjm.actuator_gaintype[i]) == int(mujoco.mjtGain.mjGAIN_MUSCLE)]
   if offset_ellipsoid:
     rec.cover("models_with_offset_ellipsoid_fluid_geom", 1)
   if muscle_ids:
     rec.cover("models_with_muscle", 1)
 
-  def judge_split(name, got, ref, sel, allow, noise, base_sig, mus, allow_abs, ctx):
-    """Judges the selected entries; entries touched by a muscle actuator / fluid-upper-triangle carry their own sig."""
-    groups = [("", sel & ~mus, SIG_A if offset_ellipsoid else base_sig), (":muscle", sel & mus, SIG_A if offset_ellipsoid else SIG_B)]
-    out = "ok"
+  def scale_of(ref):
+    dg = np.sqrt(np.abs(np.diag(ref)))
+    return np.maximum(1.0, np.maximum(np.abs(ref), np.outer(dg, dg)))  # terms entering D_ij are bounded by sqrt(D_ii D_jj)
+
+  def judge_split(name, got, ref, sel, allow, noise, base_sig, groups, allow_abs, ctx):
+    """Judges the selected entries; `groups` = [(tag, mask, sig)] carve out entries of a classified mechanism."""
+    rest = sel.copy()
+    todo = []
     for tag, msk, sig in groups:
+      todo.append((tag, rest & msk, sig))
+      rest = rest & ~msk
+    todo.append(("", rest, base_sig))
+    scl = scale_of(ref)
+    for tag, msk, sig in todo:
       if msk.any():
         nz = noise[msk] if np.ndim(noise) else noise
-        dg = np.sqrt(np.abs(np.diag(ref)))
-        scl = np.maximum(1.0, np.maximum(np.abs(ref), np.outer(dg, dg)))  # terms entering D_ij are bounded by sqrt(D_ii D_jj)
-        r = judge_el(rec, name + tag.replace(":", "_"), got[msk], ref[msk], allow, nz, scale=scl[msk], sig=sig, ctx=ctx, allow_abs=allow_abs[msk])
-        if r != "ok":
-          out = r
-    return out
+        judge_el(rec, name + tag, got[msk], ref[msk], allow, nz, scale=scl[msk], sig=sig, ctx=ctx, allow_abs=allow_abs[msk])
 
   nontrivial = False
   for w in range(nworld):
@@ -286,9 +291,16 @@ def run_case(case):
     Mw_d = mw.dense_M(mjm, Mw[w])
     Df_got = (Mw_d - Hf) / dt
     allow_abs = 2e-6 * np.abs(M_ref) / dt
+    scl = scale_of(Di_ref)
+    line = cmp.VIOL_FACTOR * (A * scl + allow_abs)  # violation line per entry
+    # mechanism D: MJWarp's implicitfast matrix holds the symmetrised ellipsoid-fluid derivative
+    Df_sym = 0.5 * (Df_ref + Df_ref.T)
+    mask_D = np.zeros((nv, nv), dtype=bool)
+    if has_ellipsoid:
+      mask_D = tril & (np.abs(Df_sym - Df_ref) > line) & (np.abs(Df_got - Df_sym) <= line)
     # (i) lower triangle in M-structure
     sel = tril & ((Df_ref != 0) | (Hf != 0) | (M_ref != 0))
-    judge_split("qDeriv_implicitfast", Df_got, Df_ref, sel, A, 0.0, fast_sig, mus, allow_abs, ctx)
+    judge_split("qDeriv_implicitfast", Df_got, Df_ref, sel, A, 0.0, "qDeriv:implicitfast", [("_muscle", mus, SIG_B), ("_symmetrized", mask_D, SIG_D)], allow_abs, ctx)
     # (ii) full matrix in D-structure
     Hi = np.zeros((nv, nv))
     mask = np.zeros((nv, nv), dtype=bool)
@@ -299,9 +311,18 @@ def run_case(case):
     outside = (~mask) & (np.abs(Di_ref) > 1e-9)
     if outside.any():
       rec.viol("qDeriv:implicit:structure", f"MuJoCo's qDeriv has {int(outside.sum())} non-zero entries outside MJWarp's D-structure {ctx}")
-    judge_split("qDeriv_implicit_lower", Di_got, Di_ref, mask & tril, A, 0.0, "qDeriv:implicit", mus, allow_abs, ctx)
-    up_sig = SIG_C if has_fluid else "qDeriv:implicit"
-    judge_split("qDeriv_implicit_upper", Di_got, Di_ref, mask & ~tril, A, 0.0, up_sig, mus, allow_abs, ctx)
+    # mechanism C: the upper triangle holds the mirror image of the lower-triangle smooth (non-RNE) part although the true
+    # smooth part (MuJoCo's qDeriv minus the RNE term) is not symmetric there
+    mask_C = np.zeros((nv, nv), dtype=bool)
+    if has_fluid:
+      R = np.zeros((nv, nv))
+      R[Di, Dj] = -qRNE[w][: len(Di)] / dt  # MJWarp's RNE contribution to D
+      S_true = Di_ref - R  # smooth (non-RNE) part according to MuJoCo
+      pred = S_true.T + R  # what MJWarp assembles: lower-triangle smooth part mirrored, plus the RNE term
+      mask_C = mask & ~tril & (np.abs(S_true - S_true.T) > line) & (np.abs(Di_got - pred) <= line)
+    grp = [("_muscle", mus, SIG_B), ("_mirrored", mask_C, SIG_C)]
+    judge_split("qDeriv_implicit_lower", Di_got, Di_ref, mask & tril, A, 0.0, "qDeriv:implicit", grp, allow_abs, ctx)
+    judge_split("qDeriv_implicit_upper", Di_got, Di_ref, mask & ~tril, A, 0.0, "qDeriv:implicit", grp, allow_abs, ctx)
     # finite-difference oracle: consulted where it agrees with MuJoCo's analytic derivative
     Dfd = fd_qderiv(mjm, st)
     sc = np.maximum(1.0, np.abs(Di_ref))
@@ -309,8 +330,12 @@ def run_case(case):
     trusted = mask & (np.abs(Dfd - Di_ref) <= fd_tol)
     rec.cover("fd_entries_trusted", int(trusted.sum()))
     rec.cover("fd_entries_untrusted", int((mask & ~trusted).sum()))
-    judge_split("qDeriv_vs_fd_lower", Di_got, Dfd, trusted & tril, 1e-4, fd_tol / cmp.C_NOISE, "qDeriv:implicit:finite-difference", mus, allow_abs, ctx)
-    judge_split("qDeriv_vs_fd_upper", Di_got, Dfd, trusted & ~tril, 1e-4, fd_tol / cmp.C_NOISE, SIG_C if has_fluid else "qDeriv:implicit:finite-difference", mus, allow_abs, ctx)
+    judge_split("qDeriv_vs_fd", Di_got, Dfd, trusted, 1e-4, fd_tol / cmp.C_NOISE, "qDeriv:implicit:finite-difference", grp, allow_abs, ctx)
+    b_hit = bool(mus.any()) and bool((np.abs(Df_got - Df_ref)[sel & mus] > line[sel & mus]).any() or (np.abs(Di_got - Di_ref)[mask & mus] > line[mask & mus]).any())
+    c_hit, d_hit = bool(mask_C.any()), bool(mask_D.any())
+    rec.cover("worlds_mechanism_muscle", int(b_hit))
+    rec.cover("worlds_mechanism_mirrored_upper", int(c_hit))
+    rec.cover("worlds_mechanism_symmetrized", int(d_hit))
     # (iii) step
     for name in ("implicitfast", "implicit"):
       integ = mujoco.mjtIntegrator.mjINT_IMPLICITFAST if name == "implicitfast" else mujoco.mjtIntegrator.mjINT_IMPLICIT
@@ -319,13 +344,11 @@ def run_case(case):
       sref, snoise, _ = reference_el(m2, st, mujoco.mj_step, lambda mm, dd: {"qvel": dd.qvel}, seed=case["seed"] + w)
       vref = sref["qvel"]
       sig = "step:" + name + ":qvel"
-      if offset_ellipsoid:
-        sig = SIG_A
-      elif muscle_ids:
-        sig = SIG_B
-      elif name == "implicit" and has_fluid:
+      if b_hit:
+        sig = SIG_B  # the step inherits the error of the matrix it factorises
+      elif name == "implicit" and c_hit:
         sig = SIG_C
-      elif name == "implicitfast" and has_ellipsoid:
+      elif name == "implicitfast" and d_hit:
         sig = SIG_D
       Aref = M_ref - dt * (Df_ref if name == "implicitfast" else Di_ref)
       if name == "implicitfast":
